@@ -38,7 +38,8 @@ TRUSTED_BASE = [
     "statements of the property theorems in lean/TLX/Props and of the independent specs in lean/TLX/Spec",
     "hand-written Lean models of TLExport code, tied to /repo by the correspondence runners of harness/ (differential execution, sampled)",
     "harness: extractor (harness/extract.py), tracing/correspondence runners, independent senders and strict reader",
-    "not modelled: cryptographic primitives (parameters with law hypotheses / replayed), dpkt dissection and pcapng writer, scapy serialiser, argparse, re, CPython",
+    "translator tie (checks that prove TLX.Props.Translated.*): harness/py2lean.py + lean/TLX/PyRt.lean (hand-written meaning of the Python subset, compared with CPython by harness/tr_selftest.py) regenerate decision-logic functions from the source on every run; the `_eq_model` theorems prove them equal to the hand-written model functions",
+    "not modelled: cryptographic primitives (parameters with law hypotheses / toy instance; real in the oracles), record compression, argparse, re, CPython; dpkt's dissection/reader/writer and scapy's serialiser are modelled as measured from the installed libraries and compared byte for byte on every run",
 ]
 
 
